@@ -377,10 +377,13 @@ separate_digits_fractional(Arg, Sep, Num, Cs) :-
         phrase(("~",seq(NCs),"d"), FStr),
         phrase(format_(FStr, [Arg]), Cs0),
         phrase(upto_what(Bs0, .), Cs0, Ds),
-        reverse(Bs0, Bs1),
+        (   Bs0 = [-|Ds0] -> Cs = [-|Cs1] % the sign is not a digit of a group
+        ;   Ds0 = Bs0, Cs = Cs1
+        ),
+        reverse(Ds0, Bs1),
         phrase(groups_of_three(Bs1,Sep), Bs2),
         reverse(Bs2, Bs),
-        append(Bs, Ds, Cs).
+        append(Bs, Ds, Cs1).
 
 upto_what([], W), [W] --> [W], !.
 upto_what([C|Cs], W) --> [C], !, upto_what(Cs, W).
